@@ -57,7 +57,25 @@ def invalid_project(rng):
     return kind, files
 
 
+def multi_segment_project(rng):
+    """One source line that emits into several segments (a file imported into different segments, several segment blocks on
+    one line): what a listing shows for it must not depend on a hash order."""
+    nseg = rng.randrange(2, 5)
+    names = ["s%d" % i for i in range(nseg)]
+    main = ['.define segment { name = "%s" start = $%04x }' % (n_, 0x1000 * (i + 1)) for i, n_ in enumerate(names)]
+    for i, n_ in enumerate(names):
+        main.append('.segment "%s" { .import * as i%d from "shared.asm" }' % (n_, i))
+    order = names[:]
+    rng.shuffle(order)
+    main.append(" ".join('.segment "%s" { %s }' % (n_, rng.choice(["nop", "lda #%d" % rng.randrange(256), ".byte %d, %d" % (rng.randrange(256), rng.randrange(256)), "rts"])) for n_ in order))
+    main.append('.segment "%s" { jsr i0.x }' % names[0])
+    shared = "x: lda #%d\n    sta $d0%02x\n    .byte %s\n    rts\n" % (rng.randrange(256), rng.randrange(64), ", ".join(str(rng.randrange(256)) for _ in range(rng.randrange(1, 12))))
+    return "valid-multi-segment-lines", {"main.asm": "\n".join(main) + "\n", "shared.asm": shared}
+
+
 def valid_project(rng):
+    if rng.random() < 0.25:
+        return multi_segment_project(rng)
     for _ in range(20):
         prog = P.generate(rng, {"p_import": 1.0, "p_macro": 0.7, "p_segments": 0.3, "max_bytes": 300, "top_stmts": 10})
         if prog.base_pc != 0x2000 and not prog.has_segments:
